@@ -50,12 +50,12 @@ def main():
     snap = []
     try:
         st = AGG.make_statistic()
-        snap = [{"out": "out_A", "rows": list(st.subjectnames), "status": "ok"}]
+        snap = [{"out": "out_A", "rows": list(st.subjectnames), "seen": list(st.subjectnames)}]
     except Exception:  # noqa: BLE001
         pass
     files = {"out_A": read_lines(out, header, rows, True)}
     obs = {"outs": ["out_A"], "subjects": {"out_A": sorted(set(names))}, "prior": [],
-           "init": {"out_A": {"ex": False, "ls": []}}, "ev": [{"files": files, "snaps": snap, "failed": 0}], "ends": [1], "foreign": False, "ctorfailed": False}
+           "init": {"out_A": {"ex": False, "ls": []}}, "ev": [{"files": files, "snaps": snap, "mid": [], "failed": 0}], "ends": [1], "foreign": False, "ctorfailed": False}
     _real_stdout.write(json.dumps({"mode": mode, "names": names, "obs": obs}) + "\n")
     _real_stdout.flush()
 
